@@ -12,6 +12,10 @@
     old-only one is created), which turns the *new* index list back into the *old* one up to order, well-formed at
     every step; likewise the foreign keys (`Abs.Idx.emitDownKeep`), unless a key is redefined in place.
 
+  * `indexes_and_keys_up_then_down` — **down undoes up**: from the old index (foreign-key) list, the printed up
+    statements followed by the printed down statements are well-formed at every step and end in the old list up to
+    order (`Abs.Idx.up_then_down`; the abstract machine does not see the order of the list, `execAll_perm`).
+
   Missing for the full statement: as for C01 (column attributes, the primary key, drop suppression); covered by
   correspondence + the executable predicate `Spec.c02` on the implementation's printed down migration.
 -/
@@ -98,6 +102,54 @@ theorem indexes_and_keys_from_scripts (g : Globals) (hg : g.dialect = .mysql) (r
           ∃ R, Abs.Idx.execAll tbN.fks ((Table.walkFk t false [] td.fks).filterMap fkStmt) = some R ∧ R.Perm tbO.fks)) := by
   obtain ⟨td, h1, h2, h3, _, _, h6, h7⟩ := elems_end_to_end g hg rc old new dbO dbN ho hn heo hen d hd t tbO tbN hfo hfn
   exact ⟨td, h1, h2, h3, h6, h7⟩
+
+/-- **down undoes up**, index and foreign-key lists: executing the printed up statements and then the printed down
+    statements on the reference engine's old lists is well-formed at every step and ends in the old lists up to order -/
+theorem indexes_and_keys_up_then_down (g : Globals) (hg : g.dialect = .mysql) (rc : Bool)
+    (old new : List Stmt) (dbO dbN : DB) (ho : old.all Stmt.elemSafe = true) (hn : new.all Stmt.elemSafe = true)
+    (heo : execAll rc [] old = some dbO) (hen : execAll rc [] new = some dbN)
+    (d : Migration) (hd : loadAndDiff g old new = .ok d)
+    (t : String) (tbO tbN : TableSpec) (hfo : dbO.find t = some tbO) (hfn : dbN.find t = some tbN) :
+    ∃ td ∈ d.tables, td.name = t ∧
+      (∃ up down R R', Table.walkIdx g t true [] td.idxs = .ok up ∧ Table.walkIdx g t false [] td.idxs = .ok down ∧
+        Abs.Idx.execAll tbO.idxs (up.filterMap idxStmt) = some R ∧
+        Abs.Idx.execAll R (down.filterMap idxStmt) = some R' ∧ R'.Perm tbO.idxs) ∧
+      ((∀ s ∈ tbN.fks, ∀ o ∈ tbO.fks, s.name = o.name → s = o) →
+        ∃ R R', Abs.Idx.execAll tbO.fks ((Table.walkFk t true [] td.fks).filterMap fkStmt) = some R ∧
+          Abs.Idx.execAll R ((Table.walkFk t false [] td.fks).filterMap fkStmt) = some R' ∧ R'.Perm tbO.fks) := by
+  obtain ⟨td, h1, h2, _, ⟨up, hup, hupe, _⟩, ⟨hfe, _⟩, ⟨down, hdown, hdowne, _⟩, ⟨hfde, _⟩⟩ :=
+    elems_end_to_end g hg rc old new dbO dbN ho hn heo hen d hd t tbO tbN hfo hfn
+  -- unique names on the reference side: re-derived from the abstract correctness statements' hypotheses
+  obtain ⟨mo, hmo', hro, heo'⟩ := ReaderMysql.run_elems rc old {} [] dbO Rel.empty ElemsOK.empty ho heo
+  obtain ⟨mn, hmn', hrn, hen'⟩ := ReaderMysql.run_elems rc new {} [] dbN Rel.empty ElemsOK.empty hn hen
+  obtain ⟨io, to, _, hmo, hdo, _, _, _, _⟩ := hro.lookup hfo
+  obtain ⟨i, tn, _, hmn, hdn, _, _, _, _⟩ := hrn.lookup hfn
+  have hi_n := hrn.inv.each tn (List.mem_of_getElem? hmn)
+  have hi_o := hro.inv.each to (List.mem_of_getElem? hmo)
+  obtain ⟨hvin, hvfn⟩ := hen'.at_ (Migration.raws_getElem mn hmn) hdn
+  obtain ⟨hvio, hvfo⟩ := heo'.at_ (Migration.raws_getElem mo hmo) hdo
+  have hvin : idxSpecOf tn.idxs = tbN.idxs := hvin
+  have hvio : idxSpecOf to.idxs = tbO.idxs := hvio
+  have hvfn : fkSpecOf tn.fks = tbN.fks := hvfn
+  have hvfo : fkSpecOf to.fks = tbO.fks := hvfo
+  have hNn : (Abs.Idx.names tbN.idxs).Nodup := by
+    rw [← hvin]; show ((idxSpecOf tn.idxs).map (fun s : IdxSpec => s.name)).Nodup
+    rw [idxSpecOf_names]; exact hi_n.idxs.nodup.sublist List.filter_sublist
+  have hOn : (Abs.Idx.names tbO.idxs).Nodup := by
+    rw [← hvio]; show ((idxSpecOf to.idxs).map (fun s : IdxSpec => s.name)).Nodup
+    rw [idxSpecOf_names]; exact hi_o.idxs.nodup.sublist List.filter_sublist
+  have hNf : (Abs.Idx.names tbN.fks).Nodup := by
+    rw [← hvfn]; show ((fkSpecOf tn.fks).map (fun s : FkSpec => s.name)).Nodup
+    rw [fkSpecOf_names]; exact hi_n.fks.nodup
+  have hOf : (Abs.Idx.names tbO.fks).Nodup := by
+    rw [← hvfo]; show ((fkSpecOf to.fks).map (fun s : FkSpec => s.name)).Nodup
+    rw [fkSpecOf_names]; exact hi_o.fks.nodup
+  refine ⟨td, h1, h2, ?_, ?_⟩
+  · obtain ⟨R, R', e1, e2, e3⟩ := Abs.Idx.up_then_down tbN.idxs tbO.idxs hNn hOn
+    exact ⟨up, down, R, R', hup, hdown, by rw [hupe]; exact e1, by rw [hdowne]; exact e2, e3⟩
+  · intro hnr
+    obtain ⟨R, R', e1, e2, e3⟩ := Abs.Idx.up_then_down_keep tbN.fks tbO.fks hNf hOf hnr
+    exact ⟨R, R', by rw [hfe]; exact e1, by rw [hfde]; exact e2, e3⟩
 
 -- non-vacuity: the scripts of C01's example; the down walk restores the old definition of the redefined index
 example : ∃ d, loadAndDiff {} C01.exOldE C01.exNewE = .ok d ∧
